@@ -161,6 +161,10 @@ static int cif_has_disallowed_chars(const UChar *str) {
     return 0;
 }
 
+int cif_text_has_disallowed_chars(const UChar *str) {
+    return cif_has_disallowed_chars(str);
+}
+
 #define UCHAR_UNDERSCORE 95
 static int cif_has_whitespace(const UChar *src) {
     const UChar *c;
